@@ -531,14 +531,14 @@ impl ServerBuilder {
 //@spec
     requires self.wf(), self.token < usize::MAX,
     ensures r matches Ok(b) ==> b.wf() && b.token == self.token + 1 && b.sockets@[self.token as int].2 is Tcp,   // [C01]
-            r matches Ok(b) ==> listener_nonblocking(&b.sockets@[self.token as int].2),   // [C01,C05] the accept loop never blocks in accept()
+            r matches Ok(b) ==> listener_nonblocking(&b.sockets@[self.token as int].2),   // [C01,C05,C06] the accept loop never blocks in accept() (a blocked accept thread never sees Pause, Resume or Stop)
 //@end
 
 //@extract file=actix-server/src/builder.rs item="impl ServerBuilder / fn listen_uds" ret=r props=C01 name=builder::listen_uds mut_self sig_replace="pub fn listen_uds<F, N: AsRef<str>>(=>pub fn listen_uds(;;name: N=>name: NameLike;;factory: F=>factory: UserFactory;;where F: ServerServiceFactory<actix_rt::net::UnixStream>,=> "
 //@spec
     requires self.wf(), self.token < usize::MAX,
     ensures r matches Ok(b) ==> b.wf() && b.token == self.token + 1 && b.sockets@[self.token as int].2 is Uds,   // [C01] Unix-domain listeners get their own token and factory too
-            r matches Ok(b) ==> listener_nonblocking(&b.sockets@[self.token as int].2),   // [C01,C05]
+            r matches Ok(b) ==> listener_nonblocking(&b.sockets@[self.token as int].2),   // [C01,C05,C06]
 //@replace pattern="use std::net::{IpAddr, Ipv4Addr};" rule=R15
 use crate::std::net::{IpAddr, Ipv4Addr};
 //@end
